@@ -24,10 +24,12 @@ type Env struct {
 	vars      map[string]SVal
 	lookup    func(name string, st *State) (SVal, bool)
 	ctx       *PkgCtx
-	visKey    string // state component of the map-range visited set for `visited(k)`
-	loopAlloc Term   // alloc array at the start of the enclosing loop (for newsince)
-	inQuant   bool   // inside a quantifier body: loaded terms mention bound variables
-	loopEntry *Env   // environment of the enclosing loop entry (pre-state, loop variables at entry values)
+	visKey    string          // state component of the map-range visited set for `visited(k)`
+	loopAlloc Term            // alloc array at the start of the enclosing loop (for newsince)
+	inQuant   bool            // inside a quantifier body: loaded terms mention bound variables
+	loopEntry *Env            // environment of the enclosing loop entry (pre-state, loop variables at entry values)
+	ranged    *SVal           // the slice the enclosing `for range` loop iterates over
+	params    map[string]SVal // argument bindings when a callee contract is evaluated at a call site
 	depth     int
 }
 
@@ -341,6 +343,7 @@ func (e *Env) selectField(v SVal, name string) (SVal, error) {
 			vc.tc.SortOf(cur.Ty)
 			ft := st.Field(idx).Type()
 			cur = SVal{vc.tc.FieldSel(cur.T, idx), ft}
+			e.loadedWF(cur)
 		}
 	}
 	return cur, nil
@@ -834,12 +837,24 @@ func (e *Env) evalCall(n *ast.CallExpr) (SVal, error) {
 				return SVal{}, err
 			}
 			return SVal{Select(vc.cur(e.st, e.visKey), k.T, SBool), boolT}, nil
+		case "ranged":
+			// the (possibly unnamed) slice the enclosing for-range loop iterates over
+			if e.ranged == nil {
+				return SVal{}, fmt.Errorf("spec expr: ranged() outside a for-range-over-slice loop invariant")
+			}
+			return *e.ranged, nil
 		case "param":
 			// the value a parameter had when the function was called (a local of the same name may shadow it)
 			if err := need(1); err != nil {
 				return SVal{}, err
 			}
 			pn, ok := identName(n.Args[0])
+			if ok && e.params != nil {
+				if v, ok := e.params[pn]; ok {
+					return v, nil
+				}
+				return SVal{}, fmt.Errorf("spec expr: no parameter %s at this call", pn)
+			}
 			if !ok || vc.fn == nil {
 				return SVal{}, fmt.Errorf("spec expr: param(name)")
 			}
@@ -1146,6 +1161,9 @@ func (e *Env) loadedWF(v SVal) {
 		f := e.vc.allocFacts(e.st, v.T, v.Ty, 0)
 		if f.S != "true" {
 			e.vc.assume(True, f)
+		}
+		if st, ok := under(v.Ty).(*types.Slice); ok {
+			e.vc.assume(True, e.vc.arrayTyped(v.T, st))
 		}
 	}
 }
